@@ -303,7 +303,8 @@ class Template:
             # if template filename and a module directory, load
             # a filesystem-based module file, generating if needed
             if module_filename is not None:
-                path = module_filename
+                # absolute, as frames of the loaded module report it
+                path = os.path.abspath(module_filename)
             elif module_directory is not None:
                 path = os.path.abspath(
                     os.path.join(
